@@ -16,7 +16,8 @@
    Dev = {} is the ideal; named deviations:
      "DiscBeforeDup"            the discontinuity test runs before the duplicate test (add)
      "NoPUSICheckOnGroupHead"   a group whose first packet has no payload_unit_start is parsed
-                                (a continuation chunk starting 00 00 01 is delivered as a PES)  *)
+                                (a continuation chunk starting 00 00 01 is delivered as a PES)
+     "RewindKeepsBuffer" / "RewindKeepsPool"   Rewind leaves parsed-but-unreturned items / the accumulators in place  *)
 EXTENDS Integers, Sequences, FiniteSets, TLC, Json
 CONSTANTS Roles,        \* function PID -> "pat" | "pmt" | "si" | "es"
           Templates,    \* function role -> set of unit templates
@@ -260,6 +261,27 @@ C06_LossSafe == (Quiescent /\ LossDomain) => \A pid \in PIDs :
 \* C07: a PID's deliveries depend on its own packets only.  Interleavings are explored by Next itself (any PID may move);
 \* inserted null / adaptation-only / transport-error packets must leave every PID's deliveries unchanged:
 C07_InsertHarmless == (Quiescent /\ nfault = 0) => \A pid \in PIDs : Ids(PerPid(FinalF, pid)) = Ids(PerPid(FinalC, pid))
+
+\* ---------------------------------------------------------------- Rewind (C20)
+\* demuxer.go:Rewind after j packets were read and i of the items produced so far were taken by the caller: the data buffer and the
+\* packet pool are replaced, the program map is kept; the stream is then read again from its first packet.
+\*   "RewindKeepsBuffer"   items parsed but not yet returned survive the rewind
+\*   "RewindKeepsPool"     the accumulators survive the rewind
+RECURSIVE RunPkts(_, _, _, _)
+RunPkts(us, s, pkts, i) == IF i > Len(pkts) THEN s ELSE RunPkts(us, Feed(us, s.acc, s.pm, s.delivered, s.nread, pkts[i]), pkts, i + 1)
+State0(pmap, buf) == [acc |-> [p \in PIDs |-> <<>>], pm |-> pmap, delivered |-> buf, nread |-> 0]
+Total0(s) == s.delivered \o DrainFrom(units, s.acc, s.pm, PIDs, s.nread + 1)
+FreshRun == Total0(RunPkts(units, State0({}, <<>>), hist, 1))
+AfterRewind(j, i) ==
+  LET sj == RunPkts(units, State0({}, <<>>), SubSeq(hist, 1, j), 1)
+      buf == IF HasDev("RewindKeepsBuffer") THEN SubSeq(sj.delivered, i + 1, Len(sj.delivered)) ELSE <<>>
+      a0 == IF HasDev("RewindKeepsPool") THEN sj.acc ELSE [p \in PIDs |-> <<>>]
+  IN Total0(RunPkts(units, [acc |-> a0, pm |-> sj.pm, delivered |-> buf, nread |-> 0], hist, 1))
+TakenAt(j) == LET sj == RunPkts(units, State0({}, <<>>), SubSeq(hist, 1, j), 1) IN 0..Len(sj.delivered)
+\* after Rewind at any point of consumption the demuxer delivers what a fresh one delivers (streams whose PAT precedes their PMTs:
+\* EarlyPMT = FALSE; with EarlyPMT = TRUE TLC shows the kept program map making the difference)
+C20_RewindFresh == (Quiescent /\ nfault = 0) =>
+                     \A j \in 0..Len(hist) : \A i \in TakenAt(j) : Ids(AfterRewind(j, i)) = Ids(FreshRun)
 
 View == <<cur, gcc, nunits, patDone, npk, nfault, dropRun, acc, pm, accC, pmC, hit, optional, [i \in DOMAIN units |-> <<units[i].pid, units[i].tmpl, units[i].early>>]>>
 \* what the model says the clean demuxer delivers in total (deliveries so far + EOF drain), for transitions that end in a quiescent state:
